@@ -1434,6 +1434,84 @@ theorem geoMethod_defined_binary64 (rnd : Rat → Rat) (hn : B64.Nearest rnd) (m
   simp only
   omega
 
+/-! ### `_randomlySetCrossLinks`: termination for fair streams -/
+
+/-- a block of draws offers every cell of the `m × n` cross matrix -/
+def Covers2 (m n : Nat) (block : List (Nat × Nat)) : Prop :=
+  ∀ i j, i < m → j < n → (i, j) ∈ block
+
+private theorem crossSetRun_done (k : Nat) (r : List (Nat × Nat)) (C : Adj) (done : Nat) (h : ¬ done < k) :
+    crossSetRun k r C done = (C, done) := by
+  cases r with
+  | nil => rfl
+  | cons d ds => obtain ⟨i, j⟩ := d; rw [crossSetRun_cons, if_neg h]
+
+private theorem crossSetRun_append (k : Nat) (b r : List (Nat × Nat)) (C : Adj) (done : Nat) :
+    crossSetRun k (b ++ r) C done
+      = crossSetRun k r (crossSetRun k b C done).1 (crossSetRun k b C done).2 := by
+  induction b generalizing C done with
+  | nil => rfl
+  | cons d ds ih =>
+    obtain ⟨i, j⟩ := d
+    rw [List.cons_append, crossSetRun_cons, crossSetRun_cons]
+    split
+    · split
+      · exact ih C done
+      · exact ih _ _
+    · rename_i h; exact (crossSetRun_done k r C done h).symm
+
+/-- a block that contains a free cell sets at least one link (unless the loop has finished) -/
+private theorem crossSetRun_block_progress (m n k : Nat) (block : List (Nat × Nat)) (C : Adj) (done : Nat)
+    (hd : ∀ d ∈ block, d.1 < m ∧ d.2 < n) (hlt : done < k)
+    (hw : ∃ d ∈ block, C d.1 d.2 = false) : done + 1 ≤ (crossSetRun k block C done).2 := by
+  induction block generalizing C done with
+  | nil => obtain ⟨d, hd', -⟩ := hw; cases hd'
+  | cons d ds ih =>
+    obtain ⟨i, j⟩ := d
+    have hd' : ∀ d ∈ ds, d.1 < m ∧ d.2 < n := fun d h => hd d (by simp [h])
+    rw [crossSetRun_cons, if_pos hlt]
+    split
+    · rename_i hc
+      apply ih C done hd' hlt
+      obtain ⟨d0, hm, hf⟩ := hw
+      rcases List.mem_cons.1 hm with rfl | hmem
+      · simp only at hf; rw [hc] at hf; cases hf
+      · exact ⟨d0, hmem, hf⟩
+    · exact (crossSetRun_spec m n k ds (C.set i j true) (done + 1) hd').2.1
+
+/-- **termination of `_randomlySetCrossLinks` / `RandomlySetCrossLinks_sparse` for fair streams**: when
+the requested number fits into the free cells (`setCount_le` guarantees it for the public methods,
+which start from the empty matrix) and the stream consists of `k − done` blocks each offering every
+cell, all `k` links are placed. -/
+theorem crossSet_fair_terminates (m n k : Nat) (blocks : List (List (Nat × Nat))) (C : Adj) (done : Nat)
+    (hk : done ≤ k) (room : total C m n + ((k - done : Nat) : Int) ≤ (m : Int) * (n : Int))
+    (cov : ∀ b ∈ blocks, Covers2 m n b) (inr : ∀ b ∈ blocks, ∀ d ∈ b, d.1 < m ∧ d.2 < n)
+    (hlen : k ≤ done + blocks.length) : (crossSetRun k blocks.flatten C done).2 = k := by
+  induction blocks generalizing C done with
+  | nil => simp at hlen; simp [crossSetRun]; omega
+  | cons b bs ih =>
+    rw [List.flatten_cons, crossSetRun_append]
+    obtain ⟨s1, s2, s3, -⟩ := crossSetRun_spec m n k b C done (inr b (by simp))
+    have prog : done < k → done + 1 ≤ (crossSetRun k b C done).2 := by
+      intro hlt
+      obtain ⟨i, j, hi, hj, hf⟩ := crossSet_progress m n C (by omega)
+      exact crossSetRun_block_progress m n k b C done (inr b (by simp)) hlt
+        ⟨(i, j), cov b (by simp) i j hi hj, hf⟩
+    apply ih _ _ (s3 hk)
+    · rw [s1]; have := s3 hk; omega
+    · exact fun b' hb' => cov b' (by simp [hb'])
+    · exact fun b' hb' => inr b' (by simp [hb'])
+    · simp only [List.length_cons] at hlen
+      rcases Nat.lt_or_ge done k with hlt | hge
+      · have := prog hlt; omega
+      · omega
+
+example : Covers2 1 2 [(0, 1), (0, 0)] := by
+  intro i j hi hj
+  have h1 : i = 0 := by omega
+  have h2 : j = 0 ∨ j = 1 := by omega
+  subst h1; rcases h2 with rfl | rfl <;> simp
+
 /-! non-vacuity, round 4 -/
 
 example : Covers 2 [(0, 0), (0, 1), (1, 0), (1, 1)] := by
